@@ -144,7 +144,19 @@ def _run_chunk(chunk):
     return _FN(chunk)
 
 
-def pmap(fn, items, cfg, chunk=None, deadline_s=3600):
+def _pin_init(counter, cores):
+    """Pin each worker (and thereby all threads it creates) to one core: baton hand-offs between the threads of an
+    execution then never cross cores, which is ~8x faster under load."""
+    with counter.get_lock():
+        i = counter.value
+        counter.value += 1
+    try:
+        os.sched_setaffinity(0, {cores[i % len(cores)]})
+    except (AttributeError, OSError):
+        pass
+
+
+def pmap(fn, items, cfg, chunk=None, deadline_s=3600, pin=True, inline_below=0):
     """Apply fn(list_of_items) -> partial_result over all items on cfg.jobs forked workers; yields partial results.
 
     The *set* of items is fixed by the caller; cfg.seed only permutes the order in which chunks are handed out.
@@ -158,14 +170,20 @@ def pmap(fn, items, cfg, chunk=None, deadline_s=3600):
         chunk = max(1, min(2000, len(items) // (jobs * 8) or 1))
     chunks = list(_chunks(items, chunk))
     random.Random(cfg.seed).shuffle(chunks)
-    if jobs == 1 or len(chunks) == 1:
+    if jobs == 1 or len(chunks) == 1 or len(items) <= inline_below:
         for c in chunks:
             yield fn(c)
         return
     global _FN
     _FN = fn
+    import gc
+    gc.collect()
+    gc.freeze()          # keep the collector of every forked worker off the inherited heap (copy-on-write storms)
     ctx = multiprocessing.get_context('fork')
-    with cf.ProcessPoolExecutor(max_workers=min(jobs, len(chunks)), mp_context=ctx) as ex:
+    kw = {}
+    if pin and hasattr(os, 'sched_getaffinity'):
+        kw = {'initializer': _pin_init, 'initargs': (ctx.Value('i', 0), sorted(os.sched_getaffinity(0)))}
+    with cf.ProcessPoolExecutor(max_workers=min(jobs, len(chunks)), mp_context=ctx, **kw) as ex:
         futs = [ex.submit(_run_chunk, c) for c in chunks]
         try:
             for f in cf.as_completed(futs, timeout=deadline_s):
@@ -276,8 +294,11 @@ def write_evidence(report, cfg, wall, n_new, n_known, klongpy_file):
         'jobs': cfg.jobs,
     }
     validate_evidence(ev)
-    os.makedirs(os.path.join(VERIF, 'evidence'), exist_ok=True)
-    path = os.path.join(VERIF, 'evidence', report.pid + '.json')
+    evdir = os.path.join(VERIF, 'evidence')
+    if os.path.realpath(os.environ.get('VERIF_REPO', '/repo')) != '/repo':
+        evdir = os.path.join(scratch_dir(), 'evidence-other-tree')      # mutation waves never touch committed evidence
+    os.makedirs(evdir, exist_ok=True)
+    path = os.path.join(evdir, report.pid + '.json')
     tmp = path + '.tmp.%d' % os.getpid()
     with open(tmp, 'w') as f:
         json.dump(ev, f, indent=1, sort_keys=True, default=str)
